@@ -118,6 +118,10 @@ def checkStep {H T : Type} [DecidableEq H] [DecidableEq T] (hash : Spec → H) (
   clause (clean F && !recorded && !L.load && o.invalid != .loadError) "load-failure-not-persisted" ++
   clause (clean F && !recorded && L.load && constraintsUnmet L && o.invalid != .constraintsFailed)
     "unmet-constraint-not-persisted" ++
+  -- "a Package whose spec is unchanged is neither re-pulled nor re-rendered" also for packages that
+  -- turned out invalid: the pass that reports Invalid records the hash, so the next pass is a no-op
+  clause (clean F && !recorded && (!L.load || constraintsUnmet L) && o.hash != some (hash spec))
+    "invalid-hash-not-recorded" ++
   clause (recorded && (o.pulls != 0 || o.deploys != 0 || o.writes != [] || o.od != pod || o.hash != ph))
     "unchanged-spec-touched" ++
   clause (clean F && !recorded && admissible L &&
